@@ -156,6 +156,46 @@ def body_sets(inp, H, W, kernels):
             key = "view_blurring_grid_%d_%d" % (ky, kx)
             A[key] = hx.attempt(lambda: aa.Grid2D.blurring_grid_from(mask=m, kernel_shape_native=(ky, kx)).slim.array)
             E[key] = np.array([centre((y, x)) for y in range(H) for x in range(W) if not rb[y, x]], dtype=object).reshape(-1, 2)
+    # history (seed C10-h): query the index sets, change the mask IN PLACE (and through a copy), query again -
+    # every view must describe the mask's current contents
+    if H * W <= 9:
+        for label, (fy, fx) in (("flip_centre", (H // 2, W // 2)), ("flip_corner", (0, 0))):
+            for via_copy in (False, True):
+                m2 = aa.Mask2D(mask=mask.copy(), pixel_scales=(sy, sx), origin=(oy, ox))
+                _ = hx.attempt(lambda: (m2.derive_indexes.edge_slim, m2.derive_indexes.border_slim, m2.derive_mask.edge))
+                tgt = m2.copy() if via_copy else m2
+                new_mask = mask.copy()
+                new_mask[fy, fx] = not new_mask[fy, fx]
+                if new_mask.all():
+                    continue
+                r = hx.attempt(lambda: tgt.__setitem__((fy, fx), bool(new_mask[fy, fx])))
+                pos2, req2, forb2 = ref_sets(new_mask)
+                tag = "history.%s%s" % (label, ".copy" if via_copy else "")
+                e2 = hx.attempt(lambda: _idx_list(tgt.derive_indexes.edge_slim)) if not isinstance(r, hx.Raised) else r
+                b2 = hx.attempt(lambda: _idx_list(tgt.derive_indexes.border_slim)) if not isinstance(r, hx.Raised) else r
+                if isinstance(e2, hx.Raised) or isinstance(b2, hx.Raised):
+                    A[tag + ".no_exception"] = "%r %r" % (e2, b2)
+                    E[tag + ".no_exception"] = "ok"
+                    continue
+                ok_idx = all(0 <= k < len(pos2) for k in e2 + b2)
+                A[tag + ".indices_valid"] = ok_idx
+                E[tag + ".indices_valid"] = True
+                if not ok_idx:
+                    continue
+                es2 = {pos2[k] for k in e2}
+                A[tag + ".edge_contains_required"] = sorted(req2 - es2)
+                E[tag + ".edge_contains_required"] = []
+                A[tag + ".edge_excludes_forbidden"] = sorted(es2 & forb2)
+                E[tag + ".edge_excludes_forbidden"] = []
+                A[tag + ".border_slim"] = b2
+                E[tag + ".border_slim"] = [k for k in e2 if walk_masked(new_mask, *pos2[k])]
+                A[tag + ".edge_native"] = hx.attempt(lambda: np.asarray(tgt.derive_indexes.edge_native, dtype=float).reshape(-1, 2))
+                E[tag + ".edge_native"] = np.array([pos2[k] for k in e2], dtype=float).reshape(-1, 2)
+                em2 = np.full((H, W), True)
+                for k in e2:
+                    em2[pos2[k]] = False
+                A[tag + ".edge_mask"] = hx.attempt(lambda: np.array(tgt.derive_mask.edge.array, dtype=bool))
+                E[tag + ".edge_mask"] = em2
     return A, E
 
 
